@@ -107,8 +107,11 @@ def run(ctx, obl):
     for i, s in enumerate(specs):
         cid = "g%d" % i
         shoots = [m["decl"]["name"] for m in s["members"] if m["k"] == "e" and m.get("shoot")]
-        args = ["new", "-getset", "-type=" + ",".join(shoots + [s["name"]])]
-        pc = {"id": cid, "files": {"t.go": newgen.render_file("cs", [s])}, "runs": [{"args": args}], "oracle": {},
+        # multi-type run (30%): companion types first (a generic one embedding a shoot type, with restrictions on fields named like T's)
+        cdecls, cnames = newgen.companion(ctx.rng, s, cid) if ctx.rng.random() < 0.3 else ([], [])
+        res.hist("multi_type", "companion" if cnames else "no")
+        args = ["new", "-getset", "-type=" + ",".join(cnames + shoots + [s["name"]])]
+        pc = {"id": cid, "files": {"t.go": newgen.render_file("cs", cdecls + [s])}, "runs": [{"args": args}], "oracle": {},
               "spec": s, "sexp": gs_sexp(cid, s, facts[i]), "cmd": "shoot " + " ".join(args),
               "key": dump([typedoc_sexp(s.get("typedoc")), newgen.members_sexp(s), sorted(facts[i])])}
         b.add(pc)
